@@ -62,7 +62,10 @@ func main() {
 		"rmHopToHopData, fromCacheItem at ages around every boundary and on an exhaustive 50 ms grid for small TTLs, key " +
 		"equality over all pairs of a random pool and a full grid of key components incl. wide type/class numbers, what " +
 		"is forwarded upstream on a miss); a real-clock campaign reading every entry several times; every message " +
-		"written by or handed to the middleware is overwritten afterwards; a run through dnssvc.NewHandlers. " +
+		"written by or handed to the middleware is overwritten afterwards; a run through dnssvc.NewHandlers; " +
+		"validating upstreams (answer depends on the forwarded CD bit, AD only for requests with AD or DO); the " +
+		"CNAME-rewrite path of the main middleware above the ECS cache with the rule switched on and off; what the " +
+		"upstream is asked on every miss (opcode, question, RD, CD, AD) against what the client asked. " +
 		"A case is non-trivial when it contains at least one cache hit and one miss; distinct = distinct op logs"
 	if os.Getenv("VERIF_C04_ORIG") == "1" {
 		simpleKind = "o"
@@ -81,6 +84,8 @@ func main() {
 	historyCampaign(o, r, m)
 	realTimeCampaign(o, r)
 	stackCampaign(o, r)
+	rewriteCampaign(o, r)
+	opcodeObservation(o, r)
 	if o.Thorough() {
 		pairCampaign(o, r, m)
 	}
@@ -370,6 +375,9 @@ type universe struct {
 	// lastFwd describes the last request that reached the upstream: DO bit,
 	// family and subnet of its ECS option ("-" if there is none).
 	lastFwd string
+	// lastHdr is what else the upstream saw of that request: question and the
+	// header bits RD, CD, AD (see hdrTokens).
+	lastHdr string
 	// handed is the last answer handed to the middleware.
 	handed *dns.Msg
 	// fault makes the next call fail, see the fault* constants.
@@ -395,6 +403,18 @@ const (
 var faultNames = [...]string{"none", "error", "error-after-write", "no-message", "bad-ecs"}
 
 var errUpstream = errors.New("verif: upstream failure")
+
+// hdrTokens renders the parts of a request that a cache must hand on as they
+// are: opcode, question, RD, CD and AD.
+func hdrTokens(req *dns.Msg) string {
+	if len(req.Question) != 1 {
+		return fmt.Sprintf("%d questions", len(req.Question))
+	}
+	q := req.Question[0]
+
+	return fmt.Sprintf("op%d %s %d %d rd=%v cd=%v ad=%v", req.Opcode, q.Name, q.Qtype, q.Qclass, req.RecursionDesired,
+		req.CheckingDisabled, req.AuthenticatedData)
+}
 
 // fwdTokens renders what the upstream sees of req the way the driver's `fwd`
 // does: DO bit, family, subnet identity.
@@ -521,6 +541,15 @@ func isNoDOEchoName(lname string) bool { return strings.HasPrefix(lname, "nodoec
 // answer itself is a function of the class asked.
 func isClassEchoName(lname string) bool { return strings.HasPrefix(lname, "classecho") }
 
+// isCDValName: a validating upstream, RFC 4035 3.2.2: its answer depends on the
+// Checking Disabled bit of the request it receives (both caches forward the
+// bit unchanged): validated data or SERVFAIL without it, raw data with it.
+func isCDValName(lname string) bool { return strings.Contains(lname, "cdval") }
+
+// isADReqName: a validating upstream, RFC 6840 5.8: the AD bit is set in the
+// answer only if the request had the AD or the DO bit.
+func isADReqName(lname string) bool { return strings.Contains(lname, "adreq") }
+
 // aware tells whether the upstream understands EDNS for the question.
 func (u *universe) aware(lname string, qt, qc uint16) bool {
 	ha := fnv.New64a()
@@ -562,12 +591,19 @@ func (u *universe) answer(req *dns.Msg) (resp *dns.Msg) {
 	// The ECS cache forwards DO=1 for clients without EDNS and filters the
 	// DNSSEC records itself, so there DO only adds DNSSEC records.
 	_, _ = fmt.Fprintf(h, "%d|%s|%d|%d|%v|%s", u.seed, lname, q.Qtype, q.Qclass, do && !u.ecs, subnet)
+	if isCDValName(lname) && req.CheckingDisabled {
+		_, _ = fmt.Fprint(h, "|cd")
+	}
 	rng := rand.New(rand.NewPCG(h.Sum64(), u.seed))
 
 	resp = &dns.Msg{}
 	resp.SetReply(req)
 	resp.Authoritative = rng.IntN(5) == 0
 	resp.AuthenticatedData = rng.IntN(5) < 2
+	if isADReqName(lname) {
+		// Validated data; the bit itself only for those who asked for it.
+		resp.AuthenticatedData = req.AuthenticatedData || do
+	}
 	resp.RecursionAvailable = rng.IntN(10) != 0
 	base := pickBaseTTL(rng, u.ecs)
 	ttl := func() uint32 {
@@ -704,6 +740,7 @@ func (u *universe) answer(req *dns.Msg) (resp *dns.Msg) {
 func (u *universe) ServeDNS(ctx context.Context, rw dnsserver.ResponseWriter, req *dns.Msg) (err error) {
 	u.calls++
 	u.lastFwd = fwdTokens(req)
+	u.lastHdr = hdrTokens(req)
 	fault := u.fault
 	u.fault = faultNone
 	switch fault {
@@ -1072,18 +1109,57 @@ func checkHit(r *hlib.Result, c caseCfg, q reqSpec, got, fresh *dns.Msg, ageNs i
 
 		return
 	}
-	if d := sameModTTL(got, fresh); d != "" {
+	// known names the known classes precisely (see known_findings.d/C04.json);
+	// each says which earlier filler explains the cached answer, and the cached
+	// answer must be, in every respect the oracle compares, the fresh answer to
+	// that filler's variant of the request.
+	aaLike := func(ff *dns.Msg) bool { return c.kind == 's' || ff.Authoritative == got.Authoritative }
+	known := func() (sig, text string) {
+		lname := strings.ToLower(q.name)
+		// Neither cache keys on the CD or the AD bit of the request; both bits
+		// are forwarded to the upstream.
+		for _, f := range fillers {
+			q2, bit := q, ""
+			switch {
+			case isCDValName(lname) && f.cd != q.cd:
+				q2.cd, bit = f.cd, "cd"
+			case isADReqName(lname) && f.ad != q.ad:
+				q2.ad, bit = f.ad, "ad-request"
+			default:
+				continue
+			}
+			ff := freshOf(q2)
+			if ff == nil {
+				continue
+			}
+			g2 := got.Copy()
+			g2.CheckingDisabled = q2.cd
+			if sameModTTL(g2, ff) == "" && aaLike(ff) {
+				return pfx + bit + "-not-in-key", fmt.Sprintf("%s: served from cache the answer the upstream gave %s (other "+
+					"%s bit, forwarded to the upstream, not part of the key): cached %s, fresh %s", q.show(), f.show(), bit,
+					showMsg(got), showMsg(fresh))
+			}
+		}
+		// The answer a client WITHOUT a GeoIP subnet got for the zero prefix is
+		// shared with clients of every location.
 		for _, f := range fillers {
 			if c.kind != 'e' || f.declined || f.fwdSubnet().Bits() != 0 || q.fwdSubnet() == f.fwdSubnet() {
 				continue
 			}
-			if ff := freshOf(f); ff != nil && sameRecords(got, ff) {
-				r.Violate("ecs:locationless-fill-shared", fmt.Sprintf("%s: served from cache the answer that %s (a client "+
+			if ff := freshOf(f); ff != nil && sameRecords(got, ff) && aaLike(ff) {
+				return "ecs:locationless-fill-shared", fmt.Sprintf("%s: served from cache the answer that %s (a client "+
 					"without a GeoIP subnet, not declining ECS) got for the zero prefix: cached %s, fresh %s", q.show(), f.show(),
-					showMsg(got), showMsg(fresh)), replay())
-
-				return
+					showMsg(got), showMsg(fresh))
 			}
+		}
+
+		return "", ""
+	}
+	if d := sameModTTL(got, fresh); d != "" {
+		if sig, text := known(); sig != "" {
+			r.Violate(sig, text+" ("+d+")", replay())
+
+			return
 		}
 		r.Violate(pfx+"hit-differs-from-fresh", fmt.Sprintf("%s: cached answer differs from a fresh one (%s): "+
 			"cached %s, fresh %s", q.tokens(), d, showMsg(got), showMsg(fresh)), replay())
@@ -1091,15 +1167,19 @@ func checkHit(r *hlib.Result, c caseCfg, q reqSpec, got, fresh *dns.Msg, ageNs i
 		return
 	}
 	if fresh.Authoritative != got.Authoritative {
-		// Known (see known_findings.d/C04.json): the simple cache builds its
-		// answer with SetReply and never copies AA.  Any other difference in
-		// this flag is new.
+		// Known: the simple cache builds its answer with SetReply and never
+		// copies AA.  For the ECS cache the flag may be the only visible
+		// difference of one of the classes above.  Anything else is new.
 		sig := pfx + "hit-aa-differs-from-fresh"
+		text := fmt.Sprintf("%s: the cached answer has AA=%v, a fresh one AA=%v", q.tokens(), got.Authoritative, fresh.Authoritative)
 		if c.kind == 's' && fresh.Authoritative && !got.Authoritative {
 			sig = "simple:hit-clears-aa"
+		} else if ksig, ktext := known(); ksig != "" {
+			r.Violate(ksig, ktext+" (AA flag)", replay())
+
+			return
 		}
-		r.Violate(sig, fmt.Sprintf("%s: the cached answer has AA=%v, a fresh one AA=%v", q.tokens(), got.Authoritative,
-			fresh.Authoritative), replay())
+		r.Violate(sig, text, replay())
 	}
 	if !cacheableSpec(fresh, q.qtype) {
 		r.Violate(pfx+"uncacheable-served-from-cache", fmt.Sprintf("%s: answer %s is neither a complete NOERROR/NODATA "+
@@ -1248,6 +1328,17 @@ func runCase(r *hlib.Result, m *hlib.Model, c caseCfg, useed uint64, ops []op, r
 				misses++
 			}
 			gots = append(gots, tag+showMsg(got))
+			if want := hdrTokens(o.q.msg()); !hit && u.lastHdr != want {
+				// Oracle: "fresh" means the upstream's answer to THIS request; a
+				// cache that alters question or header bits on the way (sets CD,
+				// clears AD or RD, folds the name) asks something else.
+				pfx := "simple:"
+				if u.ecs {
+					pfx = "ecs:"
+				}
+				r.Violate(pfx+"forwarded-request-altered", fmt.Sprintf("%s: the upstream was asked %q, the client asked %q",
+					o.q.show(), u.lastHdr, want), replay())
+			}
 			if !hit && u.ecs {
 				// What the middleware forwarded on the miss.
 				lines = append(lines, "fwd "+o.q.tokens())
@@ -1312,6 +1403,9 @@ var namePool = []string{
 	"example.com.", "EXAMPLE.com.", "ExAmPlE.CoM.", "example.org.", "a.example.com.",
 	"ecs.example.com.", "ECS.example.COM.", "ecs2.example.com.", "noedns.example.com.", "NOEDNS.example.com.",
 	"126.com.", "126.COM.", "nodoecho.example.com.", "NoDoEcho.example.com.", "classecho.example.com.",
+	// Round 5: validating upstreams (answer depends on the forwarded CD bit;
+	// AD bit only for requests with AD or DO), plain and ECS-tailored.
+	"cdval.example.com.", "ecs-cdval.example.com.", "adreq.example.com.", "CDVAL.example.com.",
 	// Round 4: names of the maximum length that differ in their last resp.
 	// first octet only, one of them also in upper case; labels with escaped
 	// octets (miekg/dns renders a non-printable octet as \DDD and a dot inside
